@@ -80,7 +80,10 @@ func checkInner(c Case) (kind, what string) {
 			return "alpha-roundtrip", fmt.Sprintf("%s NRGBA alpha %d -> %d", c.Space, a8, o.A)
 		}
 		if a8 == 0 {
-			if !bitsEq(al, 0) || !bitsEq(col.R, s.FromNRGBAch(r8)) {
+			// a non-premultiplied pixel's colour does not depend on its alpha (C04 requires the converted colour for
+			// every alpha, and reports it); this property says "zero colour": either answer satisfies C14
+			zero := col.R == 0 && col.G == 0 && col.B == 0
+			if !bitsEq(al, 0) || !(zero || bitsEq(col.R, s.FromNRGBAch(r8))) {
 				return "transparent", fmt.Sprintf("%s ColorFromNRGBA transparent: %v alpha %v", c.Space, col, al)
 			}
 		}
@@ -219,7 +222,7 @@ func TestC14(t *testing.T) {
 		// image-level cases are replayed by re-running the (cheap, exhaustive) enumeration below
 	}
 	ev.Rule("enumerations per space: all 256 8-bit alphas x 24 colours (decode exactness, 8-bit round trip, transparent pixels incl. invalid premultiplied values); all 65,536 16-bit alphas x 16 channel levels through RGBA64/NRGBA64/custom colour types (decode exactness, LineariseColor/EncodeColor alpha round trip, transparent -> zero); premultiplied validity: every alpha x 64 channel values <= alpha (quick) / every (channel <= alpha) pair (thorough); encode-side alpha for boundary floats (k+0.5)/max +-ulps and specials; opaque constructor agreement for all codes. non-trivial = distinct case with 0 < channel <= alpha < max (non-opaque, non-zero)")
-	ev.Assume("for the non-premultiplied 8-bit constructor a transparent pixel is required to give alpha 0 and the per-channel decode (see DESIGN C14)")
+	ev.Assume("for the non-premultiplied 8-bit constructor a transparent pixel is required to give alpha 0 and either the zero colour (this property's words) or the per-channel decode (what C04 requires and checks)")
 	rec := &recorder{bad: map[string]bool{}}
 	var nt, evals int64
 	for si := range sp.Spaces {
@@ -443,14 +446,18 @@ func TestC14(t *testing.T) {
 		s := &sp.Spaces[si]
 		for _, srcKind := range []string{"RGBA64", "NRGBA64"} {
 			for _, op := range []string{"Linearise", "Encode"} {
-				for _, layout := range []string{"plain", "source is a sub-image", "destination is a sub-image", "alpha high byte varies along the row"} {
+				for _, layout := range []string{"plain", "source is a sub-image", "destination is a sub-image", "alpha high byte varies along the row", "rows with negative coordinates"} {
 					var src image.Image
 					alphaAt := func(x, y int) uint16 { return uint16(y*256 + x) }
 					if layout == "alpha high byte varies along the row" {
 						// neighbours in a row share the low byte of alpha and differ in the high byte
 						alphaAt = func(x, y int) uint16 { return uint16(x*256 + y) }
 					}
-					srcParent := image.Rect(-5, 3, 251, 259)
+					sy, dy := 3, 0 // y offsets of source and destination
+					if layout == "rows with negative coordinates" {
+						sy, dy = -301, -129 // images centred on or lying above the origin
+					}
+					srcParent := image.Rect(-5, sy, 251, sy+256)
 					if layout == "source is a sub-image" {
 						srcParent = image.Rect(-9, 1, 258, 262) // same visible pixels, wider rows
 					}
@@ -459,27 +466,27 @@ func TestC14(t *testing.T) {
 						for y := 0; y < 256; y++ {
 							for x := 0; x < 256; x++ {
 								a := alphaAt(x, y)
-								m.SetRGBA64(x-5, y+3, color.RGBA64{R: a / 2, G: a, B: a / 7, A: a})
+								m.SetRGBA64(x-5, y+sy, color.RGBA64{R: a / 2, G: a, B: a / 7, A: a})
 							}
 						}
-						src = m.SubImage(image.Rect(-5, 3, 251, 259))
+						src = m.SubImage(image.Rect(-5, sy, 251, sy+256))
 					} else {
 						m := image.NewNRGBA64(srcParent)
 						for y := 0; y < 256; y++ {
 							for x := 0; x < 256; x++ {
-								m.SetNRGBA64(x-5, y+3, color.NRGBA64{R: uint16(x * 257), G: 0xFFFF, B: uint16(y), A: alphaAt(x, y)})
+								m.SetNRGBA64(x-5, y+sy, color.NRGBA64{R: uint16(x * 257), G: 0xFFFF, B: uint16(y), A: alphaAt(x, y)})
 							}
 						}
-						src = m.SubImage(image.Rect(-5, 3, 251, 259))
+						src = m.SubImage(image.Rect(-5, sy, 251, sy+256))
 					}
-					dst := image.NewRGBA64(image.Rect(0, 0, 256, 256))
+					dst := image.NewRGBA64(image.Rect(0, dy, 256, dy+256))
 					if layout == "destination is a sub-image" {
 						dst = image.NewRGBA64(image.Rect(-3, -2, 261, 257))
 					}
 					for i := range dst.Pix {
 						dst.Pix[i] = 0xAB
 					}
-					dst = dst.SubImage(image.Rect(0, 0, 256, 256)).(*image.RGBA64)
+					dst = dst.SubImage(image.Rect(0, dy, 256, dy+256)).(*image.RGBA64)
 					c := Case{Check: "image-" + op + "-" + srcKind + " (" + layout + ")", Space: s.Name}
 					ev.Journal("alpha", c) // a panic on one of the transform's worker goroutines ends the process
 					pn, msg := ev.Guard(func() {
@@ -497,7 +504,7 @@ func TestC14(t *testing.T) {
 					}
 					for y := 0; y < 256; y++ {
 						for x := 0; x < 256; x++ {
-							o := dst.RGBA64At(x, y)
+							o := dst.RGBA64At(x, y+dy)
 							a := alphaAt(x, y)
 							bad := ""
 							switch {
